@@ -279,7 +279,6 @@ def specJson {σ ρ E : Type} (names : List String) (k : Kit σ ρ E) (av : ArgV
         | .error _ => Json.null
         | .ok ce => Json.mkObj [("ok", Json.bool (isCellEdgesB edges.axes p ce)),
             ("ce", ofList (fun (e : Int × Int) => Json.arr #[ofInt e.1, ofInt e.2]) ce)]) paths),
-    ("nn1", Json.bool (notNested1B edges)),
     ("cellat", Json.bool (paths.all (fun p =>
         match cellAt s.bins p, (NArr.cells s.bins).find? (fun q => q.1 == p) with
         | some c, some q => (k.ofCell c).compress == (k.ofCell q.2).compress
